@@ -1,5 +1,6 @@
 """C07 — Ecosystem version comparison is total, consistent and a valid ordering."""
 import hashlib
+import re
 import os
 import subprocess
 from concurrent.futures import ProcessPoolExecutor
@@ -103,15 +104,35 @@ def oracle(case, fi, fm):
     return None
 
 
-def finding_class(case, fi, fm):
-    """class predicates of the two known findings: a transitivity triple of Alpine with a leading zero in a later
-    component of some member / of Maven with a member whose token list is outside the canonical shape"""
+# the recorded shape of each known finding, on the version STRING (the driver's kf flag says that the member is outside
+# the domain of the family's `_trans_partial` theorem; the shape narrows that to what the finding documents)
+KNOWN_SHAPE = {'alpine': re.compile(r'\.0[0-9]'),         # a later numeric component with a leading zero
+               'maven': re.compile(r'\.[^0-9.\-]')}        # a qualifier introduced by '.' (the cycle 1 < 1.foo < 1rc, 1 > 1rc)
+
+
+def finding_class(case, fi, fm, verdict=None, agree=True):
+    """class predicates of the two known findings. A verdict is filed under a known finding only if ALL of:
+    (1) it is a transitivity verdict on a triple (reflexivity, antisymmetry, panics, published-rule verdicts never are);
+    (2) the implementation answers exactly as the model on this row (the model reproduces the recorded defect; any other
+        behaviour on a member of the class is a new defect and is reported);
+    (3) some member of the triple is outside the domain of the family's `_trans_partial` theorem (kf flag from the
+        driver) AND has the recorded shape (Alpine: leading zero in a later component; Maven: '.'-prefixed qualifier)."""
     t = case.split(' ')
-    if t[0] != 'tri':
+    if t[0] != 'tri' or verdict is None or not verdict.startswith('transitivity:') or not agree:
         return None
     fam = ECO_FAM.get(t[1])
-    if fam in KNOWN and '1' in fm.get('kf', ''):
-        return KNOWN[fam]
+    if fam not in KNOWN:
+        return None
+    kf = fm.get('kf', '')
+    for h, k in zip(t[2:], kf):
+        if k != '1':
+            continue
+        try:
+            sv = bytes.fromhex(h).decode('utf-8', 'replace')
+        except ValueError:
+            continue
+        if KNOWN_SHAPE[fam].search(sv):
+            return KNOWN[fam]
     return None
 
 
@@ -134,7 +155,7 @@ def _shard(args):
     p = subprocess.run([binary] + gen_args, stdout=subprocess.PIPE, stderr=subprocess.PIPE, text=True, env=e, errors='replace')
     rows = [l.partition('\t') for l in p.stdout.split('\n') if l]
     out = {'gen_rc': p.returncode, 'gen_err': p.stderr[-600:], 'n': len(rows), 'nontrivial': set(), 'dist': {}, 'mismatch': [], 'n_mismatch': 0,
-           'viol': [], 'n_viol': 0, 'known': {}, 'samples': [], 'driver_note': '', 'spec': {}}
+           'viol': [], 'n_viol': 0, 'known': {}, 'n_known': {}, 'samples': [], 'driver_note': '', 'spec': {}}
     cases = [r[0] for r in rows]
     model = []
     if cases:
@@ -157,16 +178,23 @@ def _shard(args):
         if i < 2 or (i % 50021 == 0 and len(out['samples']) < 4):
             out['samples'].append({'case': case[:600], 'impl': impl[:300], 'model': mod[:300]})
         verdict = oracle(case, fi, fm)
+        agree = all(fi.get(k) == fm.get(k) for k in KEYS)
         if verdict is not None:
-            key = finding_class(case, fi, fm)
+            key = finding_class(case, fi, fm, verdict, agree)
             if key:
                 out['known'].setdefault(key, (verdict, case))
+                out['n_known'][key] = out['n_known'].get(key, 0) + 1
                 continue
+            fam = ECO_FAM.get(case.split(' ')[1])
+            if fam in KNOWN and '1' in fm.get('kf', ''):
+                verdict += ' [a member of the triple is outside the proved domain, but this is NOT the recorded finding %s: %s]' % (
+                    KNOWN[fam], 'the implementation does not behave as the model' if not agree else 'not a transitivity verdict on the recorded shape')
             out['n_viol'] += 1
             if len(out['viol']) < 3:
                 out['viol'].append((verdict, case + '\t' + impl + '\t' + mod))
-            continue
-        if not all(fi.get(k) == fm.get(k) for k in KEYS):
+            if agree:
+                continue
+        if not agree:
             out['n_mismatch'] += 1
             if len(out['mismatch']) < 3:
                 out['mismatch'].append(case + '\t' + impl + '\t' + mod)
@@ -195,6 +223,9 @@ def stream(ctx, binary, driver, jobs):
             ctx.notes.append('generator %s exited %d: %s' % (' '.join(j), o['gen_rc'], o['gen_err']))
             ctx.violation('generator c07gen crashed (an implementation panic outside recover, or a harness fault): ' + o['gen_err'][-300:], ['# see notes'],
                           found_input=False, name='gencrash-c07gen')
+        kh = ctx.extra.setdefault('known_class_rows', {})
+        for k, v in o['n_known'].items():
+            kh[k] = kh.get(k, 0) + v
         for key, (verdict, case) in o['known'].items():
             if not ctx.known_finding(key, verdict):
                 ctx.violation('specification violated by the implementation (class %s is not listed in known_findings.txt): %s' % (key, verdict), [case])
